@@ -58,6 +58,8 @@ def generate(ck):
     ]
     descs.append({"cls": "single", "table": {"kind": "synthetic", "family": "falling", "prm": [0.5, 0.9, 0.5], "n": 200, "p_lo": 50.0, "p_hi": 9000.0, "grid": "uniform", "seed": 0}, "p_i": 8500.0, "p_f": 1500.0, "r": 8, "t_end": 0.6, "theta": 0.2})
     descs.append({"cls": "single", "table": {"kind": "synthetic", "family": "const-diffusivity", "prm": [0.3, 0.6, 0.2], "n": 200, "p_lo": 50.0, "p_hi": 9000.0, "grid": "uniform", "seed": 0}, "p_i": 8000.0, "p_f": 2000.0, "r": 8, "t_end": 2.0, "coarse_nt": 41})
+    descs.append(dict(descs[0], decoy=True, t_end=5.0))
+    descs.append(dict(descs[3], decoy=True, t_end=4.0))
     n = 2 if ck.tier == "quick" else 200
     for i in range(n):
         r = int(rng.choice([4, 8, 16]))
@@ -85,7 +87,7 @@ def generate(ck):
             continue
         if i % 3 == 2:
             t = dict(t, rows=str(rng.choice(["descending", "shuffled"])), rows_seed=int(rng.integers(0, 10**6)))
-        descs.append({"cls": "single", "table": t, "p_i": p_i, "p_f": p_f, "r": r, "t_end": t_end})
+        descs.append({"cls": "single", "table": t, "p_i": p_i, "p_f": p_f, "r": r, "t_end": t_end, "decoy": bool(i % 5 == 1)})
     return descs
 
 
@@ -156,6 +158,23 @@ def run_case(ck, desc):
         pp = sim.SIM_EVENTS.pop()["pp"]
         ck.count("contract_evaluations.simulate")
         ck.count("steps_simulated", nt - 1)
+        if desc.get("decoy"):
+            # "simulate every scenario, then evaluate": another reservoir with the same numbers of
+            # nodes and time stamps is simulated BEFORE this one's field and recovery are read; what
+            # is judged below is the field the object holds then, not the copy the contract took
+            if cls == "ideal":
+                other = IdealReservoir(nx, 0.5 * p_f, p_i, None)
+                sim.simulate(other, 0.01 * t, None)
+            else:
+                p_lo_tab = tables.pressure_range(tab)[0]
+                other = SinglePhaseReservoir(nx, max(p_lo_tab, p_f - 0.6 * (p_f - p_lo_tab)) if p_f - p_lo_tab > 0.2 * (p_i - p_f) else 0.5 * (p_f + p_i), p_i, fluid)
+                sim.simulate(other, 0.3 * t, None)
+            sim.SIM_EVENTS.clear()
+            live = np.asarray(res.pseudopressure, dtype=float)
+            if live.shape != pp.shape or not np.array_equal(live, pp):
+                ck.violation("field-held-by-the-object-is-its-own-solution", {"nx": nx, "nt": nt, "max_change/R": float(np.max(np.abs(live - pp))) / R if live.shape == pp.shape else None, "after": "a simulate on another object with the same nx and number of time stamps"}, desc)
+            pp = np.array(live, copy=True)
+            ck.count("fields_judged_after_another_objects_simulate")
         rf = np.asarray(res.recovery_factor(), dtype=float)
         plateau = (1 - p_f / p_i) if cls == "ideal" else R  # documented plateau of the flux recovery
         late = t >= (0.4 if coarse_nt else 0.05)
